@@ -7,6 +7,9 @@ CONSTANTS
   Texts <- FTexts
   Valid <- FTexts
   HashOf <- FHash
+  ImplHash <- FHash
+  AltHashes <- NoAlt
+  CanonOf <- NoCanon
   WrongHashes <- Wrong1
   Kinds <- LruOnly
   Caps <- Caps123
